@@ -168,5 +168,10 @@ Fixpoint map_objective (m : list Q) (s : strategy) : Q :=
   | mq :: m', b :: s' => (if b then mq else 1 - mq) + map_objective m' s'
   | _, _ => 0
   end.
+(* evidence that sits on a queried fact becomes TrueConstraint(node); only constraints on a
+   positive decision node survive the filter `set(c.get_nodes()) & decision_nodes`, and
+   TrueConstraint.check then requires that decision to be 1 *)
+Definition forced_admissible (forced : list nat) (s : strategy) : bool :=
+  forallb (fun i => nth i s false) forced.
 Definition map_threshold (m : list Q) : strategy :=
   map (fun mq => negb (Qle_bool mq (1 - mq))) m.
